@@ -37,6 +37,30 @@ pub struct Profile {
     pub unsized_custom: bool,
     /// allow unsized arrays / payloads that are not last (degenerate but legal)
     pub unsized_not_last: bool,
+    /// struct declarations keep their (dependency) order in front of the file: forward references
+    /// to a struct through a dynamic array are a known finding of the Python, C++ and Java backends
+    pub structs_first: bool,
+    /// the first tag of every enum is a plain value tag
+    pub enum_first_value: bool,
+    pub min_len_width: u32,
+    /// enum fields inside bit-field runs: minimal / maximal width
+    pub min_enum_width: u32,
+    pub max_enum_width: u32,
+    /// at most one enum-typed (or fixed enum) bit-field per run in structs
+    pub one_enum_per_struct_run: bool,
+    /// children never carry their own payload size field
+    pub child_payload_unsized: bool,
+    /// typedef struct / array items only directly after an octet-aligned start (no preceding bit-field run in the record)
+    pub min_scalar_width: u32,
+    pub nonempty_records: bool,
+    pub struct_fields: bool,
+    pub max_discr_width: u32,
+    pub max_enum_elem_width: u32,
+    pub enum_constraints: bool,
+    pub struct_arrays_by_size: bool,
+    pub fixed_fields: bool,
+    /// scalar constraint values stay below 2^(w-1)
+    pub signed_constraints: bool,
 }
 
 impl Profile {
@@ -69,20 +93,52 @@ impl Profile {
             checksum: false,
             unsized_custom: false,
             unsized_not_last: true,
+            structs_first: false,
+            enum_first_value: false,
+            min_len_width: 1,
+            min_enum_width: 1,
+            max_enum_width: 64,
+            one_enum_per_struct_run: false,
+            child_payload_unsized: false,
+            min_scalar_width: 1,
+            nonempty_records: false,
+            struct_fields: true,
+            max_discr_width: 64,
+            max_enum_elem_width: 64,
+            enum_constraints: true,
+            struct_arrays_by_size: true,
+            fixed_fields: true,
+            signed_constraints: false,
         }
     }
     pub fn rust_rt() -> Profile {
         Profile { name: "rust-rt".into(), round_trip: true, unsized_not_last: false, ..Profile::rust() }
     }
     pub fn python() -> Profile {
-        Profile { name: "python".into(), elemsize: false, custom: false, array_modifier: true, enum_default_first: true, struct_inherit: true, ..Profile::rust() }
+        Profile { name: "python".into(), structs_first: true, elemsize: false, custom: false, array_modifier: true, enum_default_first: true, struct_inherit: true, ..Profile::rust() }
     }
     pub fn cxx() -> Profile {
-        Profile { name: "cxx".into(), custom: false, struct_inherit: false, array_modifier: true, enum_default_first: true, optional: false, ..Profile::rust() }
+        Profile { name: "cxx".into(), nonempty_records: true, structs_first: true, enum_first_value: true, enum_default_first: false, odd_scalar_arrays: false, one_enum_per_struct_run: true, child_payload_unsized: true, round_trip: true, unsized_not_last: false, custom: false, struct_inherit: false, array_modifier: true, optional: false, ..Profile::rust() }
     }
     pub fn java() -> Profile {
         Profile {
             name: "java".into(),
+            signed_constraints: true,
+            fixed_fields: false,
+            nonempty_records: true,
+            enum_arrays: false,
+            enum_constraints: false,
+            struct_arrays_by_size: false,
+            struct_fields: false,
+            max_discr_width: 31,
+            max_enum_elem_width: 16,
+            structs_first: true,
+            min_len_width: 2,
+            min_enum_width: 2,
+            max_enum_width: 31,
+            min_scalar_width: 2,
+            odd_scalar_arrays: false,
+            round_trip: true,
             optional: false,
             padding: false,
             elemsize: false,
@@ -91,13 +147,13 @@ impl Profile {
             body: false,
             array_modifier: false,
             payload_modifier: false,
-            groups: true,
+            groups: false,
             enum_default_first: false,
             alias_children: false,
             size_only_children: false,
             max_depth: 1,
             unsized_not_last: false,
-            max_len_width: 31,
+            max_len_width: 16,
             ..Profile::rust()
         }
     }
@@ -160,6 +216,14 @@ enum BitPart {
 }
 
 impl BitPart {
+    /// keep the part only if its width is exactly `w`, else a reserved field of `w` bits
+    fn w_or_reserved(self, w: u32) -> BitPart {
+        if self.w() == w {
+            self
+        } else {
+            BitPart::Reserved(w)
+        }
+    }
     fn w(&self) -> u32 {
         match self {
             BitPart::Scalar(w) | BitPart::Enum(w) | BitPart::FixedScalar(w) | BitPart::FixedEnum(w) | BitPart::Reserved(w) => *w,
@@ -179,6 +243,9 @@ pub struct Gen<'a, 'b> {
     structs: Vec<StructInfo>,
     customs: Vec<(String, u32)>,
     pub strata: Vec<String>,
+    in_struct: bool,
+    in_child: bool,
+    enums_in_record: usize,
 }
 
 fn maxv(w: u32) -> u64 {
@@ -194,7 +261,7 @@ const ELEM_WIDTHS: &[u32] = &[8, 8, 16, 24, 32, 40, 48, 56, 64];
 
 impl<'a, 'b> Gen<'a, 'b> {
     pub fn new(s: &'a mut Src<'b>, p: Profile) -> Self {
-        Gen { s, p, decls: vec![], nfield: 0, ndecl: 0, enums: vec![], structs: vec![], customs: vec![], strata: vec![] }
+        Gen { s, p, decls: vec![], nfield: 0, ndecl: 0, enums: vec![], structs: vec![], customs: vec![], strata: vec![], in_struct: false, in_child: false, enums_in_record: 0 }
     }
 
     fn fid(&mut self) -> String {
@@ -209,7 +276,7 @@ impl<'a, 'b> Gen<'a, 'b> {
     fn len_width(&mut self) -> u32 {
         loop {
             let w = *self.s.pick(LEN_WIDTHS);
-            if w <= self.p.max_len_width {
+            if w <= self.p.max_len_width && w >= self.p.min_len_width {
                 return w;
             }
         }
@@ -290,6 +357,15 @@ impl<'a, 'b> Gen<'a, 'b> {
                         _ => self.s.range(cur, max),
                     };
                 }
+            }
+        }
+        if self.p.enum_first_value && !matches!(tags.first(), Some(Tag::Value { .. })) {
+            if let Some(k) = tags.iter().position(|t| matches!(t, Tag::Value { .. })) {
+                let t = tags.remove(k);
+                tags.insert(0, t);
+            } else {
+                // only ranges: make the enum a plain one
+                tags = vec![Tag::Value { id: tid(&mut ntag), v: 0 }];
             }
         }
         if open {
@@ -375,13 +451,29 @@ impl<'a, 'b> Gen<'a, 'b> {
                     2 => fill.min(*self.s.pick(&[7u32, 8, 9, 15, 16, 17, 31, 32, 33, 63, 3, 4])),
                     _ => 1 + self.s.below(fill as usize) as u32,
                 };
+                let enum_ok = w >= self.p.min_enum_width && w <= self.p.max_enum_width && !(self.p.one_enum_per_struct_run && self.enums_in_record >= 1);
                 let part = match self.s.weighted(&[6, 3, 1, 1, 2]) {
-                    0 => BitPart::Scalar(w),
-                    1 => BitPart::Enum(w),
+                    0 if w >= self.p.min_scalar_width => BitPart::Scalar(w),
+                    0 => BitPart::Reserved(w),
+                    1 if enum_ok => BitPart::Enum(w),
+                    1 => BitPart::Scalar(w.max(self.p.min_scalar_width).min(w)),
                     2 => BitPart::FixedScalar(w),
-                    3 => BitPart::FixedEnum(w),
+                    3 if enum_ok => BitPart::FixedEnum(w),
+                    3 => BitPart::FixedScalar(w),
                     _ => BitPart::Reserved(w),
                 };
+                let part = match part {
+                    BitPart::Scalar(w) if w < self.p.min_scalar_width => BitPart::Reserved(w),
+                    BitPart::FixedScalar(w) if w < self.p.min_scalar_width || w > self.p.max_enum_width => BitPart::Reserved(w),
+                    p => p,
+                };
+                let part = match part {
+                    BitPart::FixedScalar(w) | BitPart::FixedEnum(w) if !self.p.fixed_fields => BitPart::Scalar(w.max(self.p.min_scalar_width)).w_or_reserved(w),
+                    p => p,
+                };
+                if matches!(part, BitPart::Enum(_) | BitPart::FixedEnum(_)) {
+                    self.enums_in_record += 1;
+                }
                 run.push(part);
                 fill -= w;
             }
@@ -454,7 +546,8 @@ impl<'a, 'b> Gen<'a, 'b> {
                 (Elem::Bits(w), Some(w as u64 / 8), w as u64 / 8, true)
             }
             2 if self.p.enum_arrays => {
-                let w = *self.s.pick(&[8u32, 16, 24, 32, 64, 8, 16]);
+                let ws: Vec<u32> = [8u32, 16, 24, 32, 64, 8, 16].into_iter().filter(|w| *w <= self.p.max_enum_width && *w <= self.p.max_enum_elem_width).collect();
+                let w = *self.s.pick(&ws);
                 let ty = self.enum_of_width(w);
                 (Elem::Ty(ty), Some(w as u64 / 8), w as u64 / 8, true)
             }
@@ -492,6 +585,9 @@ impl<'a, 'b> Gen<'a, 'b> {
             }
             _ => Shape::Unsized,
         };
+        if !self.p.struct_arrays_by_size && ek == 3 && matches!(shape, Shape::Size(..)) {
+            shape = Shape::Count(self.len_width());
+        }
         if matches!(shape, Shape::Unsized) && !last && !(self.p.unsized_not_last && self.s.below(8) == 0) {
             shape = Shape::Count(self.len_width());
         }
@@ -525,6 +621,8 @@ impl<'a, 'b> Gen<'a, 'b> {
     /// Generate the field list of one record.
     /// `payload`: 0 none, 1 may, 2 must.  Returns (fields, discriminant candidates).
     fn gen_fields(&mut self, payload: u8, is_struct: bool, stratum: Option<usize>) -> (Vec<Field>, Vec<(String, u32, Option<String>)>) {
+        self.in_struct = is_struct;
+        self.enums_in_record = 0;
         let mut out: Vec<Field> = vec![];
         let mut discr = vec![];
         let nitems = match self.s.below(8) {
@@ -556,8 +654,10 @@ impl<'a, 'b> Gen<'a, 'b> {
                     }
                 }
                 1 => {
-                    if let Some(si) = self.pick_struct(false, self.p.round_trip && !last) {
-                        items.push(Item::Struct(si.id));
+                    if self.p.struct_fields {
+                        if let Some(si) = self.pick_struct(false, self.p.round_trip && !last) {
+                            items.push(Item::Struct(si.id));
+                        }
                     }
                 }
                 2 => {
@@ -610,7 +710,7 @@ impl<'a, 'b> Gen<'a, 'b> {
         let want_payload = payload == 2 || (payload == 1 && self.s.below(3) == 0);
         if want_payload {
             let body = self.p.body && self.s.below(3) == 0;
-            let sized = self.s.below(2) == 0;
+            let sized = self.s.below(2) == 0 && !(self.p.child_payload_unsized && self.in_child);
             let size = if sized { Some(self.len_width()) } else { None };
             let modifier = if sized && !body && self.p.payload_modifier && self.s.below(4) == 0 { Some(1 + self.s.below(5) as u64) } else { None };
             let it = Item::Payload { body, size, modifier };
@@ -698,7 +798,12 @@ impl<'a, 'b> Gen<'a, 'b> {
             let _ = n_items;
         }
         if out.is_empty() || self.s.below(3) == 0 {
-            let must = out.is_empty() && (is_struct || self.s.below(4) > 0);
+            let only_reserved = out.iter().all(|f| matches!(f.d, FieldDesc::Reserved { .. }));
+            if self.p.nonempty_records && only_reserved && !self.p.fixed_fields {
+                let id = self.fid();
+                out.insert(0, Field::new(FieldDesc::Scalar { id, w: 8 }));
+            }
+            let must = out.is_empty() && (is_struct || self.p.nonempty_records || self.s.below(4) > 0);
             if must || (self.p.fields_after_payload || !want_payload) && self.s.below(2) == 0 {
                 if !(unsized_payload_seen && !self.p.fields_after_payload) {
                     self.bit_runs(vec![], true, &mut out, &mut discr);
@@ -833,11 +938,14 @@ impl<'a, 'b> Gen<'a, 'b> {
         // candidates able to discriminate >= 2 values
         let mut cands: Vec<(String, u32, Option<String>, Vec<(String, u64)>)> = vec![];
         for (id, w, ty) in &avail {
+            if *w > self.p.max_discr_width {
+                continue;
+            }
             match ty {
                 None => cands.push((id.clone(), *w, None, vec![])),
                 Some(t) => {
                     let tags = self.named_tags(t);
-                    if !tags.is_empty() {
+                    if !tags.is_empty() && self.p.enum_constraints {
                         cands.push((id.clone(), *w, Some(t.clone()), tags));
                     }
                 }
@@ -891,9 +999,12 @@ impl<'a, 'b> Gen<'a, 'b> {
             let cons_main = match &dty {
                 None => {
                     let mut v = self.s.bits(dw);
+                    if self.p.signed_constraints && dw > 1 {
+                        v &= maxv(dw - 1);
+                    }
                     let mut guard = 0;
                     while used_vals.contains(&v) {
-                        v = if v == maxv(dw) { 0 } else { v + 1 };
+                        v = if v == maxv(if self.p.signed_constraints && dw > 1 { dw - 1 } else { dw }) { 0 } else { v + 1 };
                         guard += 1;
                         if guard > 8 {
                             break;
@@ -916,7 +1027,7 @@ impl<'a, 'b> Gen<'a, 'b> {
                 }
             };
             let mut cons = vec![cons_main];
-            let mut rest: Vec<(String, u32, Option<String>)> = avail.iter().filter(|a| a.0 != did).cloned().collect();
+            let mut rest: Vec<(String, u32, Option<String>)> = avail.iter().filter(|a| a.0 != did && a.1 <= self.p.max_discr_width).cloned().collect();
             // alias level: no constraint here, the constraint moves to a grandchild
             let alias = self.p.alias_children && depth + 1 < self.p.max_depth && n == 1 && self.s.below(6) == 0;
             // extra constraint on another field
@@ -924,10 +1035,16 @@ impl<'a, 'b> Gen<'a, 'b> {
                 let k = self.s.below(rest.len());
                 let (eid, ew, ety) = rest.remove(k);
                 match ety {
-                    None => cons.push(Cons { id: eid, v: Cv::Int(self.s.bits(ew)) }),
+                    None => {
+                        let mut v = self.s.bits(ew);
+                        if self.p.signed_constraints && ew > 1 {
+                            v &= maxv(ew - 1);
+                        }
+                        cons.push(Cons { id: eid, v: Cv::Int(v) })
+                    }
                     Some(t) => {
                         let tags = self.named_tags(&t);
-                        if !tags.is_empty() {
+                        if !tags.is_empty() && self.p.enum_constraints {
                             cons.push(Cons { id: eid, v: Cv::Tag(self.s.pick(&tags).0.clone()) });
                         }
                     }
@@ -935,7 +1052,9 @@ impl<'a, 'b> Gen<'a, 'b> {
             }
             let id = self.did(if packet { "P" } else { "S" });
             let grand = depth + 1 < self.p.max_depth && (alias || self.s.below(4) == 0);
+            self.in_child = true;
             let (fields, discr) = self.gen_fields(if grand { 2 } else { 1 }, !packet, None);
+            self.in_child = false;
             let has_payload = fields.iter().any(|f| matches!(f.d, FieldDesc::Payload { .. } | FieldDesc::Body));
             if alias {
                 self.strata.push("inherit.alias-level".into());
@@ -1087,6 +1206,14 @@ impl<'a, 'b> Gen<'a, 'b> {
                 let j = self.s.below(i + 1);
                 self.decls.swap(i, j);
             }
+            if self.p.structs_first {
+                // stable partition: structs (in generation = dependency order) before everything else
+                let order: Vec<String> = self.structs.iter().map(|s| s.id.clone()).collect();
+                let (mut st, rest): (Vec<Decl>, Vec<Decl>) = self.decls.drain(..).partition(|d| matches!(d, Decl::Record { packet: false, .. }));
+                st.sort_by_key(|d| order.iter().position(|o| o == d.id()).unwrap_or(usize::MAX));
+                self.decls = st;
+                self.decls.extend(rest);
+            }
         }
         (Desc { big, decls: self.decls }, self.strata)
     }
@@ -1103,7 +1230,8 @@ pub fn gen_desc(stream: &[u32], p: &Profile, stratum: Option<usize>, big: bool) 
     // enum strata 22..27
     if let Some(x) = st {
         if (22..28).contains(&x) {
-            let w = *g.s.pick(&[1u32, 3, 7, 8, 9, 16, 24, 32, 63, 64]);
+            let ws: Vec<u32> = [1u32, 3, 7, 8, 9, 16, 24, 32, 63, 64].into_iter().filter(|w| *w >= p.min_enum_width && *w <= p.max_enum_width).collect();
+            let w = *g.s.pick(&ws);
             g.gen_enum(w, Some(x - 22));
             g.strata.push(format!("enum.shape={}", x - 22));
         }
